@@ -268,6 +268,15 @@ class Tap(object):
             return
         e = self.end(conn)
         dec = decode_datagram(datagram, conn.session_key_bytes)
+        if not dec.ok and direction == "s2c" and getattr(self.world, "reactor_lag", 0):
+            # a lagging reactor sends what an EARLIER connection of this address built (the address has a new session by now)
+            for e2 in list(self.ends.values()):
+                if e2.role == "server" and e2.conn is not conn and getattr(e2.conn, "addr", None) == addr:
+                    d2 = decode_datagram(datagram, e2.conn.session_key_bytes)
+                    if d2.ok:
+                        conn, e, dec = e2.conn, e2, d2
+                        self.counters.inc("wire_attributed_to_earlier_session")
+                        break
         if self.keep_genuine and dec.ok:
             if dec.form == "gcm":
                 self.genuine_by_key.setdefault(conn.session_key_bytes, {})[datagram[:20]] = datagram
@@ -351,6 +360,7 @@ class AppTracker(object):
         self.counter = 0
         self.c = world.counters
         self.raising_callbacks = False
+        self.double_at_accept = {}   # (id(receiving conn), payload id) -> mechanism label decided when the endpoint accepted it again
         self.endpoint_accepted = set()        # payload ids / (id(sending conn), msgseq) the peer ENDPOINT has accepted (queued for its application)
         self._inq = 0
         world.deliver_hooks.append(self.on_deliver)
@@ -375,12 +385,17 @@ class AppTracker(object):
             for cl in self.world.clients_by_addr.values():
                 if cl.udp.conn is conn:
                     sender = self.tap.server_by_addr.get(cl.addr)
+        self._accepted_again = []
         for seq, payload in new:
             pid = payload_id(bytes(payload))
-            if pid is not None:
-                self.endpoint_accepted.add(pid)
-            elif sender is not None:
-                self.endpoint_accepted.add((id(sender), int(seq)))
+            key = pid if pid is not None else ((id(sender), int(seq)) if sender is not None else None)
+            if key is None:
+                continue
+            if key in self.endpoint_accepted:
+                # accepted by this endpoint for the second time: judged NOW, with the datagram at hand (the application may collect
+                # its messages much later)
+                self._accepted_again.append((int(seq), key, id(conn)))
+            self.endpoint_accepted.add(key)
 
     def send(self, endpoint, side, length, retry, api="send", with_cb=True, fill="random", payload=None, extra_cb=None, raw_cb=None, assume_open=False, keep_payload=True):
         """endpoint: ClientEnd (side 'client') or a ServerClientConnection (side 'server').
@@ -546,6 +561,11 @@ class AppTracker(object):
 
     def recv_judged(self, e):
         self._note_late(e)
+        for seq, key, cid in getattr(self, "_accepted_again", []):
+            if cid == id(e.conn):
+                rec = self.sends.get(key) if not (isinstance(key, tuple) and len(key) == 2 and isinstance(key[0], int) and key[0] > 255) else None
+                self.double_at_accept[(cid, key)] = self.classify_double(e.conn, seq, rec)
+        self._accepted_again = []
 
     def classify_double(self, conn, seqnum=None, rec=None):
         """known mechanism (finding): the second delivery arrived in a FRESH datagram built by the honest sender
@@ -589,6 +609,8 @@ class AppTracker(object):
 
     def double_delivery(self, rec, lst, conn=None):
         mech = self.classify_double(conn, lst[-1][2], rec) if conn is not None else None
+        if conn is not None and (id(conn), rec["id"]) in self.double_at_accept:
+            mech = self.double_at_accept[(id(conn), rec["id"])]       # the verdict of the moment of acceptance
         if conn is not None and mech is None:
             self._window_miss(conn, lst[-1][2])
         self.report("C04", mech or "delivered-twice", lambda: "message %r (%d bytes, retry %d) delivered %d times to the %s application at t=%s" % (
@@ -726,6 +748,8 @@ class RecvMonitor(object):
     def message_verdict(self, e, seq, ptype, top, behind, seen_before, processed):
         """C08 at message level: inside the 256-window a message is dropped as a duplicate exactly when it was processed before"""
         self.c.inc("message_verdicts")
+        if getattr(e, "verdicts_now", None) is not None:
+            e.verdicts_now.append(seq)
         if not processed and not seen_before and behind < 256:
             self.report("C08", "message-false-duplicate", "message seq %d (type %d) was dropped as a duplicate although it was never received before; it is %s the 256-message window (top %d)" % (
                 seq, ptype, ("%d behind the top of" % behind) if behind >= 0 else "ahead of", top))
@@ -737,6 +761,7 @@ class RecvMonitor(object):
 
     def before_recv(self, e, datagram):
         conn = e.conn
+        e.verdicts_now = []
         e.last_recv = {"origin": self.world.origins.get(datagram, "network"), "msg_top": int(conn.bitfield_msg.current_seqnum),
                        "again": False, "genuine": False, "msgseqs": []}
         self.before = (snapshot(conn, (e.delivered_n, e.callbacks_n)), conn.stats.dropped)
@@ -766,6 +791,19 @@ class RecvMonitor(object):
         e.last_recv["again"] = bool(res) and (e.unwrap_peer(dec.seq) in e.acc)
         if res:
             self.tap.fan("recv_judged", e)
+            # every application message of an accepted datagram gets its own verdict: a message that was never looked at (the loop
+            # over the datagram's messages ended early) is as good as flagged duplicate
+            got_v = list(getattr(e, "verdicts_now", []) or [])
+            seen = getattr(e, "msg_seen", set())
+            still_open = getattr(conn.status, "value", 0) == 2
+            for mseq, mtype, mpl in dec.msgs:
+                if mtype in (6, 7):
+                    if mseq in got_v:
+                        got_v.remove(mseq)
+                    elif still_open and mseq not in seen and e.last_recv["msg_top"] and ring_diff(e.last_recv["msg_top"], mseq) < 256:
+                        self.report("C08", "message-false-duplicate", "message seq %d (type %d) of an accepted datagram with %d messages was never looked at although it was not received before" % (
+                            mseq, mtype, len(dec.msgs)))
+                        break
         if res and snap0 != snap1:
             self.c.inc("recv_genuine_changed_state")
         u = e.unwrap_peer(dec.seq)
